@@ -2,6 +2,7 @@
 
 from __future__ import annotations
 
+import hashlib
 import random
 import struct
 
@@ -50,7 +51,7 @@ CONFIGS = {
 EVENTS = (
     "raw_settings", "raw_settings_by_index", "settings", "settings_by_index", "derived", "settings_map",
     "c2http_aesrand", "c2http_rsa", "c2http_aeshmac", "client_dryrun", "profile", "transform_get", "transform_post",
-    "response_roundtrip", "iter_recover_http", "mutate", "version", "transform_norequest", "client_dryrun_defaults",
+    "response_roundtrip", "iter_recover_http", "mutate", "version", "transform_norequest", "client_dryrun_defaults", "client_rerun", "rsa_session",
 )
 
 
@@ -147,6 +148,41 @@ def do_event(cfg, ev, seed):
                     cl.run(cfg, dry_run=True, beacon_id=bid)
                     out.append(plain([cl.metadata.dumps(), cl.task_url, cl.user_agent]))
             return out
+        if ev == "client_rerun":
+            # one client object configured twice from this configuration (second time with another id) reports the
+            # same as a fresh client configured once with that id
+            def observe(cl):
+                return plain([cl.beacon_id, cl.aes_rand, cl.aes_key, cl.hmac_key, cl.c2http.beacon_keys.aes_key, cl.c2http.beacon_keys.hmac_key, cl.c2http.aes_key, cl.c2http.hmac_key, cl.metadata.dumps(), cl.task_url])
+
+            kw = dict(dry_run=True, pid=4242, user="user", computer="PC", process="p.exe", internal_ip="10.0.0.9", arch="x64")
+            with Seams():
+                cl = HttpBeaconClient()
+                cl.run(cfg, beacon_id=1234, **kw)
+                cl.run(cfg, beacon_id=4242, **kw)
+                again = observe(cl)
+                fresh_cl = HttpBeaconClient()
+                fresh_cl.run(cfg, beacon_id=4242, **kw)
+                once = observe(fresh_cl)
+            return {"second-run-equals-fresh-client": again == once, "fresh": once, "rerun": again if again != once else "same"}
+        if ev == "rsa_session":
+            # a decoder that holds only the RSA key: decodes a check-in and then the task sent in reply
+            m = c2.BeaconMetadata()
+            m.magic, m.bid, m.pid, m.aes_rand, m.info = 0xBEEF, 1234, 77, aes_rand, b"PC\tu\tp"
+            h = c2.C2Http(cfg, rsa_private_key=priv)
+            real = random.getrandbits
+            random.getrandbits = lambda k: 0x41424344
+            try:
+                with ScriptedRandom(7):
+                    blob = c2.encrypt_metadata(m, h.pub)
+                req = h.transform_get.transform(c2.C2Data(metadata=blob), request=c2.HttpRequest(method=h.get_verb, uri=h.get_uris[0], params={}, headers={}, body=b""))
+                out1 = [(type(p).__name__, getattr(p, "bid", None)) for p in h.iter_recover_http(req)]
+                d = hashlib.sha256(aes_rand).digest()
+                pkt = c2.encrypt_packet(struct.pack(">IIII", 1, 8, 32, 0), d[:16], d[16:])
+                resp = h.transform_response.transform(c2.C2Data(output=pkt.ciphertext + pkt.signature))
+                out2 = [(p.command.value, p.epoch) for p in h.iter_recover_http(c2.HttpResponse(status=200, headers={}, reason=b"OK", body=resp.body))]
+                return plain([out1, out2, h.beacon_keys.aes_key, h.beacon_keys.hmac_key])
+            finally:
+                random.getrandbits = real
         if ev == "profile":
             prof = c2profile.C2Profile.from_beacon_config(cfg)
             text = prof.as_text()
@@ -254,6 +290,8 @@ def judge(name, hist, seed, initial):
             return ("C14/result-depends-on-history/" + ev, _short(want), _short(res)), cfg
         if ev == "mutate" and "ACCEPTED" in res:
             return ("C14/mapping-accepts-mutation", "TypeError", res), cfg
+        if ev == "client_rerun" and isinstance(res, dict) and not res["second-run-equals-fresh-client"]:
+            return ("C14/result-depends-on-history/client_rerun", _short(res["fresh"]), _short(res["rerun"])), cfg
     snap = snapshot(cfg)
     snap["cached"] = None
     if snap != initial:
